@@ -407,4 +407,718 @@ Theorem parse_expression_sound f s e s' :
   parse_expression prof f s = Ok (e, s') -> exists ts, ptoks s = ts ++ ptoks s' /\ g 5 ts e.
 Proof. apply (s_expr f (ES_all f)). Qed.
 
+
+(** * Statements *)
+Ltac norm_app := repeat (progress (cbn [app]; rewrite <- ?app_assoc)).
+Lemma consume_toks m s t s1 : consume prof m s = Ok (t, s1) -> current s = Some t /\ ptoks s = t :: ptoks s1.
+Proof.
+  unfold consume. destruct (advance s) as [[t0 s0]|] eqn:Ea; [|destruct prof; discriminate].
+  intro H. inv_bind H. injection H as <- <-. destruct (advance_toks _ _ _ Ea) as [A _]. split; auto.
+  unfold advance in Ea. unfold current. destruct (toks s); [discriminate|]. injection Ea as <- _. reflexivity.
+Qed.
+
+Lemma tid_of_is_id' id t : is_id id t = true ->
+  match id with TStringLiteral _ | TNumber _ | TComment _ | TError _ => True | _ => tid t = id end.
+Proof. apply tid_of_is_id. Qed.
+
+Lemma expect_token_toks id s t s1 : expect_token id s = Ok (t, s1) -> ptoks s = t :: ptoks s1 /\ is_id id t = true.
+Proof.
+  unfold expect_token. destruct (match_and_consume (is_id id) s) as [[t0 s0]|] eqn:E; [|discriminate].
+  intro H. injection H as <- <-. destruct (mac_toks _ _ _ _ E) as (A & B & _). auto.
+Qed.
+
+Lemma parse_identifier_sound s i r s1 :
+  parse_identifier prof s = Ok (Some (i, r), s1) -> exists ts, ptoks s = ts ++ ptoks s1 /\ g_ident ts i.
+Proof.
+  unfold parse_identifier. intro H. inv_bind H. destruct x as [v s0].
+  destruct (parse_variable_name_sound _ _ _ Hm) as (tn & A & Gn).
+  destruct v as [[n r0]|].
+  - injection H as <- <- <-. exists tn. split; auto. apply gi_var. exact Gn.
+  - cbn in Gn. subst tn. unfold parse_pronoun in H.
+    destruct (match_and_consume (is_id TPronoun) s0) as [[t s2]|] eqn:E; [|discriminate].
+    destruct (mac_toks _ _ _ _ E) as (A2 & B2 & _). injection H as <- <- <-.
+    exists [t]. split; [rewrite A, A2; reflexivity|]. apply gi_pronoun. apply (tid_of_is_id TPronoun t B2).
+Qed.
+
+Lemma expect_identifier_sound s i r s1 :
+  expect_identifier prof s = Ok (i, r, s1) -> exists ts, ptoks s = ts ++ ptoks s1 /\ g_ident ts i.
+Proof.
+  unfold expect_identifier. intro H. inv_bind H. destruct x as [[[i0 r0]|] s0]; [|discriminate].
+  injection H as <- <- <-. eapply parse_identifier_sound; eauto.
+Qed.
+
+Lemma expect_variable_name_sound s n r s1 :
+  expect_variable_name prof s = Ok (n, r, s1) -> exists ts, ptoks s = ts ++ ptoks s1 /\ g_var ts n.
+Proof.
+  unfold expect_variable_name. intro H. inv_bind H. destruct x as [[[n0 r0]|] s0]; [|discriminate].
+  injection H as <- <- <-. destruct (parse_variable_name_sound _ _ _ Hm) as (tn & A & Gn). eauto.
+Qed.
+
+Lemma g_ident_primary ti i r : g_ident ti i -> g_primary ti (PIdent i r).
+Proof. intros [ts n G|t Ht]; apply gp_nsp; [apply gn_var; auto|apply gn_pronoun; auto]. Qed.
+
+Lemma lhs_of_primary_inv p l : lhs_of_primary p = Ok l -> lhs_primary l = p.
+Proof. destruct p; cbn; intro H; try discriminate; injection H as <-; reflexivity. Qed.
+
+Lemma lhs_with_sound f i r s l s1 :
+  parse_assignment_lhs_with prof f i r s = Ok (l, s1) ->
+  exists ts, ptoks s = ts ++ ptoks s1 /\ forall ti, g_ident ti i -> g_lhs (ti ++ ts) l.
+Proof.
+  unfold parse_assignment_lhs_with. intro H. inv_bind H. destruct x as [p s0].
+  destruct (s_sub f (ES_all f) _ _ _ _ Hm) as (ts & A & K). inv_bind H. injection H as <- <-.
+  exists ts. split; auto. intros ti Gi. unfold g_lhs. rewrite (lhs_of_primary_inv _ _ Hm0).
+  apply K. apply g_ident_primary. exact Gi.
+Qed.
+
+Lemma lhs_sound f s l s1 :
+  parse_assignment_lhs prof f s = Ok (l, s1) -> exists ts, ptoks s = ts ++ ptoks s1 /\ g_lhs ts l.
+Proof.
+  unfold parse_assignment_lhs. intro H. inv_bind H. destruct x as [[i r] s0].
+  destruct (expect_identifier_sound _ _ _ _ Hm) as (ti & A & Gi).
+  destruct (lhs_with_sound _ _ _ _ _ _ H) as (ts & B & K).
+  exists (ti ++ ts). split; [rewrite A, B, app_assoc; reflexivity|auto].
+Qed.
+
+Lemma expr_sound f s e s1 : parse_expression prof f s = Ok (e, s1) -> exists ts, ptoks s = ts ++ ptoks s1 /\ g 5 ts e.
+Proof. apply (s_expr f (ES_all f)). Qed.
+Lemma primary_sound f s p s1 : parse_primary prof f s = Ok (p, s1) -> exists ts, ptoks s = ts ++ ptoks s1 /\ g_primary ts p.
+Proof. apply (s_primary f (ES_all f)). Qed.
+
+Lemma toplevel_list_sound f s first rest_ s1 :
+  parse_toplevel_expression_list prof f s = Ok (first, rest_, s1) ->
+  exists tf tr, ptoks s = tf ++ tr ++ ptoks s1 /\ g 5 tf first /\ g_list 5 tr rest_.
+Proof.
+  unfold parse_toplevel_expression_list.
+  apply (parse_expression_list_sound (parse_expression prof f) 5 (s_expr f (ES_all f))).
+Qed.
+
+Lemma expect_eol_sound s u s1 : expect_eol s = Ok (u, s1) -> exists ts, ptoks s = ts ++ ptoks s1 /\ g_eol ts.
+Proof.
+  unfold expect_eol. intro H. inv_bind H. destruct x as [o s0]. injection H as _ <-.
+  destruct (skip_opt_toks (is_one_of [TComma; TDot]) s) as (l & A & Hl).
+  set (s' := skip_opt (is_one_of [TComma; TDot]) s) in *.
+  unfold expect_token_or_end in Hm. destruct (current s') as [t|] eqn:Ec.
+  - destruct (ttype_eqb (tid t) TNewline) eqn:Et; [|discriminate].
+    assert (Ht : tid t = TNewline) by (destruct (tid t); cbn in Et; try discriminate; reflexivity).
+    destruct (advance s') as [[t' s2]|] eqn:Ea.
+    + injection Hm as _ <-. destruct (advance_toks _ _ _ Ea) as [A2 _].
+      destruct (current_head _ _ Ec) as [r Hr]. rewrite Hr in A2. injection A2 as <- ->.
+      destruct Hl as [->|(x & -> & Hx)].
+      * exists [t]. split; [rewrite A, Hr; reflexivity|apply ge_nl; auto].
+      * exists [x; t]. split; [rewrite A, Hr; reflexivity|apply ge_sep_nl; auto].
+    + injection Hm as _ <-. unfold advance in Ea. unfold current in Ec. destruct (toks s'); discriminate.
+  - injection Hm as _ <-. destruct Hl as [->|(x & -> & Hx)].
+    + exists []. split; auto. constructor.
+    + exists [x]. split; auto. apply ge_sep; auto.
+Qed.
+
+Lemma poetic_elems_sound : forall fuel s acc el s1,
+  poetic_elems fuel s acc = Ok (el, s1) ->
+  forall ts0, g_poetic ts0 acc -> exists ts, ptoks s = ts ++ ptoks s1 /\ g_poetic (ts0 ++ ts) el.
+Proof.
+  induction fuel as [|f IH]; intros s acc el s1 H ts0 G0; cbn [poetic_elems] in H; [discriminate|].
+  destruct (match_and_consume is_poetic_number_literal_token s) as [[t s0]|] eqn:E.
+  - destruct (mac_toks _ _ _ _ E) as (A & B & _).
+    assert (Hstep : forall acc' (G' : g_poetic (ts0 ++ [t]) acc'), poetic_elems f s0 acc' = Ok (el, s1) ->
+              exists ts, ptoks s = ts ++ ptoks s1 /\ g_poetic (ts0 ++ ts) el).
+    { intros acc' G' H'. destruct (IH _ _ _ _ H' _ G') as (ts & A2 & G2).
+      exists (t :: ts). split; [rewrite A, A2; reflexivity|]. rewrite <- app_assoc in G2. exact G2. }
+    assert (Hdef : (if is_minus_hyphen t
+              then match advance s0 with
+                   | Some (nt, s2) => if is_word (tspell nt) then poetic_elems f s2 (acc ++ [PESuffix (lit "-" ++ tspell nt)])
+                                      else Err (mkPE PUnexpectedToken (PLTok nt))
+                   | None => fail s0 PPoeticLiteralEndingWithHyphen
+                   end
+              else poetic_elems f s0 (acc ++ [PEWord (tspell t)])) = Ok (el, s1) ->
+              exists ts, ptoks s = ts ++ ptoks s1 /\ g_poetic (ts0 ++ ts) el).
+    { intro H'. destruct (is_minus_hyphen t) eqn:Eh.
+      - destruct (advance s0) as [[nt s2]|] eqn:Ea; [|discriminate].
+        destruct (advance_toks _ _ _ Ea) as [A2 _].
+        destruct (is_word (tspell nt)) eqn:Ew; [|discriminate].
+        destruct (IH _ _ _ _ H' (ts0 ++ [t; nt])) as (ts & A3 & G3); [apply gq_hyphen; auto|].
+        exists (t :: nt :: ts). split; [rewrite A, A2, A3; reflexivity|]. rewrite <- app_assoc in G3. exact G3.
+      - apply (Hstep _ (gq_word _ _ _ G0 B) H'). }
+    destruct (tid t) eqn:Et; try (apply Hdef; exact H).
+    + apply (Hstep (acc ++ [PESuffix (tspell t)])); auto. apply gq_suffix; auto.
+    + apply (Hstep (acc ++ [PESuffix (tspell t)])); auto. apply gq_suffix; auto.
+    + apply (Hstep acc); auto. apply gq_comma; auto.
+    + apply (Hstep (acc ++ [PEDot])); auto. apply gq_dot; auto.
+  - injection H as <- <-. exists []. rewrite app_nil_r. auto.
+Qed.
+
+Lemma poetic_literal_sound s el s1 :
+  parse_poetic_number_literal s = Ok (el, s1) -> exists ts, ptoks s = ts ++ ptoks s1 /\ g_poetic ts el /\ el <> [].
+Proof.
+  unfold parse_poetic_number_literal. destruct (current_matches is_minus_hyphen s); [discriminate|].
+  intro H. inv_bind H. destruct x as [el0 s0].
+  destruct (poetic_elems_sound _ _ _ _ _ Hm [] gq_nil) as (ts & A & G). cbn [app] in G.
+  destruct el0; [discriminate|]. injection H as <- <-. exists ts. repeat split; auto. discriminate.
+Qed.
+
+(** every simple statement, given the token that selected it *)
+Lemma put_sound f s t st s1 : current s = Some t -> tid t = TPut ->
+  parse_put_assignment prof f s = Ok (st, s1) -> exists ts, ptoks s = ts ++ ptoks s1 /\ g_stmt ts st.
+Proof.
+  intros Hc Ht H. unfold parse_put_assignment in H. inv_bind H. destruct x as [t0 s0].
+  destruct (consume_toks _ _ _ _ Hm) as [Hc0 A0]. rewrite Hc in Hc0. injection Hc0 as <-.
+  inv_bind H. destruct x as [v s2]. destruct (expr_sound _ _ _ _ Hm0) as (te & A1 & Ge).
+  inv_bind H. destruct x as [ti s3]. destruct (expect_token_toks _ _ _ _ Hm1) as [A2 B2].
+  inv_bind H. destruct x as [d s4]. destruct (lhs_sound _ _ _ _ Hm2) as (tl & A3 & Gl). injection H as <- <-.
+  exists ([t] ++ te ++ [ti] ++ tl). split.
+  - rewrite A0, A1, A2, A3. norm_app. reflexivity.
+  - apply gs_put; auto. apply (tid_of_is_id TInto ti B2).
+Qed.
+
+Lemma let_sound f s t st s1 : current s = Some t -> tid t = TLet ->
+  parse_let_assignment prof f s = Ok (st, s1) -> exists ts, ptoks s = ts ++ ptoks s1 /\ g_stmt ts st.
+Proof.
+  intros Hc Ht H. unfold parse_let_assignment in H. inv_bind H. destruct x as [t0 s0].
+  destruct (consume_toks _ _ _ _ Hm) as [Hc0 A0]. rewrite Hc in Hc0. injection Hc0 as <-.
+  inv_bind H. destruct x as [d s2]. destruct (lhs_sound _ _ _ _ Hm0) as (tl & A1 & Gl).
+  inv_bind H. destruct x as [tb s3]. destruct (expect_token_toks _ _ _ _ Hm1) as [A2 B2].
+  inv_bind H. destruct x as [op s4].
+  assert (Hop : exists top, ptoks s3 = top ++ ptoks s4 /\
+            (top = [] /\ op = None \/ exists o x, top = [x] /\ op = Some o /\
+               is_one_of [TPlus; TWith; TMinus; TMultiply; TDivide] x = true /\ get_binary_operator (tid x) = Some o)).
+  { destruct (match_and_consume (is_one_of [TPlus; TWith; TMinus; TMultiply; TDivide]) s3) as [[x s']|] eqn:E.
+    - destruct (mac_toks _ _ _ _ E) as (A & B & _). inv_bind Hm2.
+      unfold unwrap_op in Hm3. destruct (get_binary_operator (tid x)) as [o|] eqn:Eo; [|discriminate].
+      injection Hm3 as <-. injection Hm2 as <- <-. exists [x]. split; [rewrite A; reflexivity|]. right. exists o, x. auto.
+    - injection Hm2 as <- <-. exists []. split; auto. }
+  destruct Hop as (top & A3 & Hop).
+  inv_bind H. destruct x as [[first rest_] s5]. destruct (toplevel_list_sound _ _ _ _ _ Hm3) as (tf & tr & A4 & Gf & Gr).
+  injection H as <- <-.
+  exists ([t] ++ tl ++ [tb] ++ top ++ tf ++ tr). split.
+  - rewrite A0, A1, A2, A3, A4. norm_app. reflexivity.
+  - apply gs_let; auto. apply (tid_of_is_id TBe tb B2).
+Qed.
+
+Lemma drop_until_newline_toks : forall n s2,
+  exists tany, ptoks s2 = tany ++ ptoks (drop_until_newline s2 n) /\ Forall (fun x => tid x <> TNewline) tany.
+Proof.
+  induction n as [|n IH]; intro s2; cbn [drop_until_newline]; [exists []; split; auto|].
+  destruct (current s2) as [c|] eqn:Ec; [|exists []; split; auto].
+  assert (Hadv : exists tany, ptoks s2 = tany ++ ptoks (match advance s2 with Some (_, s') => drop_until_newline s' n | None => s2 end) /\
+                   (tid c <> TNewline -> Forall (fun x => tid x <> TNewline) tany)).
+  { destruct (advance s2) as [[c' s']|] eqn:Ea; [|exists []; split; auto].
+    destruct (advance_toks _ _ _ Ea) as [A _]. destruct (current_head _ _ Ec) as [r Hr]. rewrite Hr in A. injection A as <- ->.
+    destruct (IH s') as (tany & A2 & F2). exists (c :: tany). split; [rewrite Hr, A2; reflexivity|]. intro Hn. constructor; auto. }
+  destruct (tid c) eqn:Et; try (destruct Hadv as (tany & A & F); exists tany; split; [exact A|apply F; discriminate]).
+  exists []. split; auto.
+Qed.
+
+Lemma poetic_assignment_sound buf f i r s st s1 :
+  parse_poetic_assignment prof buf f i r s = Ok (st, s1) ->
+  exists ts, ptoks s = ts ++ ptoks s1 /\ forall ti, g_ident ti i -> g_stmt (ti ++ ts) st.
+Proof.
+  unfold parse_poetic_assignment. intro H. inv_bind H. destruct x as [d s0].
+  destruct (lhs_with_sound _ _ _ _ _ _ Hm) as (tl & A0 & Kl).
+  inv_bind H. destruct x as [t s2]. unfold expect_any in Hm0.
+  destruct (match_and_consume (is_one_of [TIs; TApostropheS; TApostropheRE; TSays; TSay]) s0) as [[t' s2']|] eqn:E; [|discriminate].
+  injection Hm0 as -> ->. destruct (mac_toks _ _ _ _ E) as (A1 & B1 & _).
+  assert (Hstr : is_one_of [TSays; TSay] t = true ->
+            (let* (txt, s3) := parse_poetic_string_rhs buf t s2 in Ok (SPoeticStr d txt, s3)) = Ok (st, s1) ->
+            exists ts, ptoks s = ts ++ ptoks s1 /\ forall ti, g_ident ti i -> g_stmt (ti ++ ts) st).
+  { intros Hs H'. inv_bind H'. destruct x as [txt s3]. injection H' as <- <-.
+    unfold parse_poetic_string_rhs in Hm0.
+    set (sd := drop_until_newline s2 (length (toks s2))) in *.
+    assert (Hd : exists tany, ptoks s2 = tany ++ ptoks sd /\ Forall (fun x => tid x <> TNewline) tany)
+      by (apply drop_until_newline_toks).
+    destruct Hd as (tany & A2 & Fany).
+    assert (Es : s3 = sd).
+    { destruct (match current sd with
+                | Some e => if boundary_ok buf (tstart t) && boundary_ok buf (tstart e) then slice_bytes buf (tstart t) (tstart e) else None
+                | None => if boundary_ok buf (tstart t) then Some (drop_bytes (tstart t) buf) else None
+                end) as [text|]; [|discriminate].
+      destruct (strip_prefix (tspell t) text) as [after|]; [|discriminate].
+      destruct (strip_prefix (lit " ") after); [|discriminate]. injection Hm0 as _ <-. reflexivity. }
+    subst s3. exists (tl ++ [t] ++ tany). split.
+    - rewrite A0, A1, A2. norm_app. reflexivity.
+    - intros ti Gi. rewrite app_assoc. apply gs_poetic_str; auto. }
+  assert (Hnum : is_one_of [TIs; TApostropheS; TApostropheRE] t = true ->
+            (let* (rhs, s3) := parse_poetic_number_rhs prof f s2 in Ok (SPoeticNum d rhs, s3)) = Ok (st, s1) ->
+            exists ts, ptoks s = ts ++ ptoks s1 /\ forall ti, g_ident ti i -> g_stmt (ti ++ ts) st).
+  { intros Hs H'. inv_bind H'. destruct x as [rhs s3]. injection H' as <- <-.
+    unfold parse_poetic_number_rhs in Hm0. destruct (current s2) as [c|]; [|discriminate].
+    inv_bind Hm0. destruct x.
+    - inv_bind Hm0. destruct x as [e s4]. injection Hm0 as <- <-.
+      destruct (expr_sound _ _ _ _ Hm2) as (te & A2 & Ge).
+      exists (tl ++ [t] ++ te). split; [rewrite A0, A1, A2; norm_app; reflexivity|].
+      intros ti Gi. rewrite app_assoc. apply gs_poetic_expr; auto.
+    - inv_bind Hm0. destruct x as [el s4]. injection Hm0 as <- <-.
+      destruct (poetic_literal_sound _ _ _ Hm2) as (tp & A2 & Gp & Hne).
+      exists (tl ++ [t] ++ tp). split; [rewrite A0, A1, A2; norm_app; reflexivity|].
+      intros ti Gi. rewrite app_assoc. apply gs_poetic_lit; auto. }
+  unfold is_one_of, ttype_in in B1.
+  destruct (tid t) eqn:Et; cbn in B1; try discriminate;
+    first [ apply Hnum; [unfold is_one_of, ttype_in; rewrite Et; reflexivity|exact H]
+          | apply Hstr; [unfold is_one_of, ttype_in; rewrite Et; reflexivity|exact H] ].
+Qed.
+
+Ltac first_tok Hm Hc :=
+  let Hc0 := fresh "Hc0" in let A0 := fresh "A0" in
+  destruct (consume_toks _ _ _ _ Hm) as [Hc0 A0]; rewrite Hc in Hc0; injection Hc0 as <-.
+
+Lemma count_suffix_sound sfx : (sfx = TUp \/ sfx = TDown) -> forall fuel s c c' s1,
+  count_suffix fuel sfx s c = (c', s1) ->
+  exists more, ptoks s = more ++ ptoks s1 /\
+    Forall (fun x => tid x = TComma \/ tid x = sfx) more /\
+    c' = (c + Z.of_nat (length (filter (is_id sfx) more)))%Z.
+Proof.
+  intro Hsfx. induction fuel as [|f IH]; intros s c c' s1 H; cbn [count_suffix] in H.
+  - injection H as <- <-. exists []. cbn. repeat split; auto. lia.
+  - destruct (match_and_consume (is_id sfx) s) as [[t s0]|] eqn:E.
+    + destruct (mac_toks _ _ _ _ E) as (A & B & _).
+      assert (Ht : tid t = sfx) by (destruct Hsfx as [->| ->]; [apply (tid_of_is_id TUp t B)|apply (tid_of_is_id TDown t B)]).
+      destruct (skip_opt_toks (is_id TComma) s0) as (l & A2 & Hl).
+      destruct (IH _ _ _ _ H) as (more & A3 & F & Hc).
+      assert (Hl2 : Forall (fun x => tid x = TComma \/ tid x = sfx) l /\ filter (is_id sfx) l = []).
+      { destruct Hl as [->|(x & -> & Hx)]; [split; auto|].
+        pose proof (tid_of_is_id TComma x Hx) as Hx'. cbn in Hx'. split; [constructor; auto|].
+        cbn [filter]. unfold is_id. rewrite Hx'. destruct Hsfx as [->| ->]; reflexivity. }
+      destruct Hl2 as [Fl El].
+      exists ([t] ++ l ++ more). split; [rewrite A, A2, A3; norm_app; reflexivity|]. split.
+      * constructor; [right; auto|]. apply Forall_app. split; auto.
+      * rewrite Hc. cbn [app filter]. rewrite B. rewrite filter_app, El. cbn [app length]. lia.
+    + injection H as <- <-. exists []. cbn. repeat split; auto. lia.
+Qed.
+
+Lemma build_knock_sound b sfx s t i r k s1 :
+  current s = Some t -> tid t = b -> (sfx = TUp \/ sfx = TDown) ->
+  parse_build_knock prof b sfx s = Ok (i, r, k, s1) ->
+  exists ti tu more, ptoks s = ([t] ++ ti ++ [tu] ++ more) ++ ptoks s1 /\ g_ident ti i /\ tid tu = sfx /\
+    Forall (fun x => tid x = TComma \/ tid x = sfx) more /\ k = (1 + Z.of_nat (length (filter (is_id sfx) more)))%Z.
+Proof.
+  intros Hc Ht Hsfx H. unfold parse_build_knock in H. inv_bind H. destruct x as [t0 s0]. first_tok Hm Hc.
+  inv_bind H. destruct x as [[i0 r0] s2]. destruct (expect_identifier_sound _ _ _ _ Hm0) as (ti & A1 & Gi).
+  inv_bind H. destruct x as [tu s3]. destruct (expect_token_toks _ _ _ _ Hm1) as [A2 B2].
+  destruct (skip_opt_toks (is_id TComma) s3) as (l & A3 & Hl).
+  destruct (count_suffix (length (toks (skip_opt (is_id TComma) s3))) sfx (skip_opt (is_id TComma) s3) 0%Z) as [extra s5] eqn:Ecs.
+  assert (Ek : k = (1 + extra)%Z) by congruence.
+  injection H as <- <- _ <-.
+  destruct (count_suffix_sound sfx Hsfx _ _ _ _ _ Ecs) as (more & A4 & F & Hk).
+  assert (Htu : tid tu = sfx) by (destruct Hsfx as [->| ->]; [apply (tid_of_is_id TUp tu B2)|apply (tid_of_is_id TDown tu B2)]).
+  assert (Hl2 : Forall (fun x => tid x = TComma \/ tid x = sfx) l /\ filter (is_id sfx) l = []).
+  { destruct Hl as [->|(x & -> & Hx)]; [split; auto|].
+    pose proof (tid_of_is_id TComma x Hx) as Hx'. cbn in Hx'. split; [constructor; auto|].
+    cbn [filter]. unfold is_id. rewrite Hx'. destruct Hsfx as [->| ->]; reflexivity. }
+  destruct Hl2 as [Fl El].
+  exists ti, tu, (l ++ more). split; [rewrite A0, A1, A2, A3, A4; norm_app; reflexivity|].
+  repeat split; auto.
+  - apply Forall_app. split; auto.
+  - rewrite Ek, Hk, filter_app, El. cbn [app]. lia.
+Qed.
+
+Lemma say_sound f s t st s1 : current s = Some t -> is_one_of [TSay; TSayAlias] t = true ->
+  parse_say prof f s = Ok (st, s1) -> exists ts, ptoks s = ts ++ ptoks s1 /\ g_stmt ts st.
+Proof.
+  intros Hc Ht H. unfold parse_say in H. inv_bind H. destruct x as [t0 s0]. first_tok Hm Hc.
+  inv_bind H. destruct x as [e s2]. destruct (expr_sound _ _ _ _ Hm0) as (te & A1 & Ge). injection H as <- <-.
+  exists ([t] ++ te). split; [rewrite A0, A1; norm_app; reflexivity|apply gs_say; auto].
+Qed.
+
+Lemma listen_sound f s t st s1 : current s = Some t -> tid t = TListen ->
+  parse_listen prof f s = Ok (st, s1) -> exists ts, ptoks s = ts ++ ptoks s1 /\ g_stmt ts st.
+Proof.
+  intros Hc Ht H. unfold parse_listen in H. inv_bind H. destruct x as [t0 s0]. first_tok Hm Hc.
+  destruct (match_and_consume (is_id TTo) s0) as [[tt s2]|] eqn:E.
+  - destruct (mac_toks _ _ _ _ E) as (A1 & B1 & _). inv_bind H. destruct x as [d s3].
+    destruct (lhs_sound _ _ _ _ Hm0) as (tl & A2 & Gl). injection H as <- <-.
+    exists ([t; tt] ++ tl). split; [rewrite A0, A1, A2; norm_app; reflexivity|].
+    apply gs_listen_to; auto. apply (tid_of_is_id TTo tt B1).
+  - injection H as <- <-. exists [t]. split; [rewrite A0; reflexivity|apply gs_listen; auto].
+Qed.
+
+Lemma opt_lhs_after_sound f s o s1 :
+  opt_lhs_after prof f TInto s = Ok (o, s1) ->
+  exists ts, ptoks s = ts ++ ptoks s1 /\
+    (ts = [] /\ o = None \/ exists x tl d, ts = [x] ++ tl /\ tid x = TInto /\ g_lhs tl d /\ o = Some d).
+Proof.
+  unfold opt_lhs_after. destruct (match_and_consume (is_id TInto) s) as [[x s0]|] eqn:E.
+  - destruct (mac_toks _ _ _ _ E) as (A & B & _). intro H. inv_bind H. destruct x0 as [d s2].
+    destruct (lhs_sound _ _ _ _ Hm) as (tl & A2 & Gl). injection H as <- <-.
+    exists ([x] ++ tl). split; [rewrite A, A2; reflexivity|]. right. exists x, tl, d. repeat split; auto.
+    apply (tid_of_is_id TInto x B).
+  - intro H. injection H as <- <-. exists []. split; auto.
+Qed.
+
+Lemma mutation_sound f s t st s1 : current s = Some t -> is_one_of [TCut; TJoin; TCast] t = true ->
+  parse_mutation prof f s = Ok (st, s1) -> exists ts, ptoks s = ts ++ ptoks s1 /\ g_stmt ts st.
+Proof.
+  intros Hc Ht H. unfold parse_mutation in H. inv_bind H. destruct x as [t0 s0]. first_tok Hm Hc.
+  inv_bind H. unfold unwrap_op in Hm0. destruct (get_mutation_operator (tid t)) as [op|] eqn:Eo; [|discriminate].
+  injection Hm0 as <-.
+  inv_bind H. destruct x as [operand s2]. destruct (primary_sound _ _ _ _ Hm0) as (tp & A1 & Gp).
+  inv_bind H. destruct x as [dest s3]. destruct (opt_lhs_after_sound _ _ _ _ Hm1) as (tinto & A2 & Hinto).
+  inv_bind H. inv_bind H. destruct x0 as [param s4]. injection H as <- <-.
+  assert (Hw : exists twith, ptoks s3 = twith ++ ptoks s4 /\
+            (twith = [] /\ param = None \/ exists x te e, twith = [x] ++ te /\ tid x = TWith /\ g 5 te e /\ param = Some e)).
+  { destruct (match_and_consume (is_id TWith) s3) as [[xw s']|] eqn:E.
+    - destruct (mac_toks _ _ _ _ E) as (A & B & _).
+      destruct (parse_expression prof f s') as [[e s'']| | | | |] eqn:Ee; cbn [bind] in Hm3; try discriminate.
+      destruct (expr_sound _ _ _ _ Ee) as (te & A3 & Ge). injection Hm3 as <- <-.
+      exists ([xw] ++ te). split; [rewrite A, A3; reflexivity|]. right. exists xw, te, e. repeat split; auto.
+      apply (tid_of_is_id TWith xw B).
+    - injection Hm3 as <- <-. exists []. split; auto. }
+  destruct Hw as (twith & A3 & Hwith).
+  exists ([t] ++ tp ++ tinto ++ twith). split; [rewrite A0, A1, A2, A3; norm_app; reflexivity|].
+  apply gs_mutation; auto.
+Qed.
+
+Lemma rounding_direction_sound s d s1 :
+  parse_rounding_direction s = (d, s1) ->
+  (d = None /\ s1 = s) \/
+  exists td, ptoks s = td :: ptoks s1 /\ is_one_of [TUp; TDown; TRound] td = true /\ d = get_rounding_direction (tid td).
+Proof.
+  unfold parse_rounding_direction. destruct (match_and_consume (is_one_of [TUp; TDown; TRound]) s) as [[td s0]|] eqn:E.
+  - destruct (mac_toks _ _ _ _ E) as (A & B & _). intro H. injection H as <- <-. right. exists td. auto.
+  - intro H. injection H as <- <-. left. auto.
+Qed.
+
+Lemma rounding_sound f s t st s1 : current s = Some t -> tid t = TTurn ->
+  parse_rounding prof f s = Ok (st, s1) -> exists ts, ptoks s = ts ++ ptoks s1 /\ g_stmt ts st.
+Proof.
+  intros Hc Ht H. unfold parse_rounding in H. inv_bind H. destruct x as [t0 s0]. first_tok Hm Hc.
+  destruct (parse_rounding_direction s0) as [d1 s2] eqn:E1.
+  inv_bind H. destruct x as [operand s3]. destruct (expr_sound _ _ _ _ Hm0) as (te & A1 & Ge).
+  destruct (rounding_direction_sound _ _ _ E1) as [[-> ->]|(td & A2 & B2 & ->)].
+  - destruct (parse_rounding_direction s3) as [d2 s4] eqn:E2.
+    destruct (rounding_direction_sound _ _ _ E2) as [[-> ->]|(td & A2 & B2 & ->)]; [discriminate|].
+    destruct (get_rounding_direction (tid td)) as [d|] eqn:Ed; [|discriminate]. injection H as <- <-.
+    exists ([t] ++ te ++ [td]). split; [rewrite A0, A1, A2; norm_app; reflexivity|apply gs_round_after; auto].
+  - destruct (get_rounding_direction (tid td)) as [d|] eqn:Ed.
+    + injection H as <- <-. exists ([t; td] ++ te). split; [rewrite A0, A2, A1; norm_app; reflexivity|apply gs_round_before; auto].
+    + exfalso. unfold is_one_of, ttype_in in B2. destruct (tid td); cbn in B2; try discriminate; cbn in Ed; discriminate.
+Qed.
+
+Lemma break_sound s t st s1 : current s = Some t -> tid t = TBreak ->
+  parse_break prof s = Ok (st, s1) -> exists ts, ptoks s = ts ++ ptoks s1 /\ g_stmt ts st.
+Proof.
+  intros Hc Ht H. unfold parse_break in H. inv_bind H. destruct x as [b s0]. first_tok Hm Hc.
+  assert (Hplain : forall r, exists ts, ptoks s = ts ++ ptoks s0 /\ g_stmt ts (SBreak r))
+    by (intro r; exists [t]; split; [rewrite A0; reflexivity|apply gs_break; auto]).
+  destruct (current s0) as [t1|] eqn:Ec1; [|injection H as <- <-; apply Hplain].
+  inv_bind H. destruct x; [|injection H as <- <-; apply Hplain].
+  destruct (advance s0) as [[ti s2]|] eqn:Ea; [|injection H as <- <-; apply Hplain].
+  destruct (advance_toks _ _ _ Ea) as [A1 _].
+  inv_bind H. destruct x as [td s3]. destruct (expect_token_toks _ _ _ _ Hm1) as [A2 B2]. injection H as <- <-.
+  exists [t; ti; td]. split; [rewrite A0, A1, A2; reflexivity|]. apply gs_break_it_down; auto. apply (tid_of_is_id TDown td B2).
+Qed.
+
+Lemma continue_sound s t st s1 : current s = Some t -> tid t = TContinue ->
+  parse_simple_continue prof s = Ok (st, s1) -> exists ts, ptoks s = ts ++ ptoks s1 /\ g_stmt ts st.
+Proof.
+  intros Hc Ht H. unfold parse_simple_continue in H. inv_bind H. destruct x as [b s0]. first_tok Hm Hc. injection H as <- <-.
+  exists [t]. split; [rewrite A0; reflexivity|apply gs_continue; auto].
+Qed.
+
+Lemma expect_ispelled_toks text s t s1 : expect_token_ispelled text s = Ok (t, s1) -> ptoks s = t :: ptoks s1.
+Proof.
+  unfold expect_token_ispelled. destruct (current s) as [c|] eqn:Ec; [|discriminate].
+  intro H. inv_bind H. destruct x; [|discriminate]. destruct (advance s) as [[t' s']|] eqn:Ea; [|discriminate].
+  injection H as <- <-. apply (advance_toks _ _ _ Ea).
+Qed.
+
+Lemma take_sound s t st s1 : current s = Some t -> tid t = TTake ->
+  parse_take_it_to_the_top prof s = Ok (st, s1) -> exists ts, ptoks s = ts ++ ptoks s1 /\ g_stmt ts st.
+Proof.
+  intros Hc Ht H. unfold parse_take_it_to_the_top in H. inv_bind H. destruct x as [t0 s0]. first_tok Hm Hc.
+  inv_bind H. destruct x as [t2 s2]. pose proof (expect_ispelled_toks _ _ _ _ Hm0) as A1.
+  inv_bind H. destruct x as [t3 s3]. destruct (expect_token_toks _ _ _ _ Hm1) as [A2 B2].
+  inv_bind H. destruct x as [t4 s4]. pose proof (expect_ispelled_toks _ _ _ _ Hm2) as A3.
+  inv_bind H. destruct x as [t5 s5]. destruct (expect_token_toks _ _ _ _ Hm3) as [A4 B4]. injection H as <- <-.
+  exists [t; t2; t3; t4; t5]. split; [rewrite A0, A1, A2, A3, A4; reflexivity|].
+  apply gs_take_it_to_the_top; auto; [apply (tid_of_is_id TTo t3 B2)|apply (tid_of_is_id TTop t5 B4)].
+Qed.
+
+Lemma push_sound f s t st s1 : current s = Some t -> tid t = TRock ->
+  parse_array_push prof f s = Ok (st, s1) -> exists ts, ptoks s = ts ++ ptoks s1 /\ g_stmt ts st.
+Proof.
+  intros Hc Ht H. unfold parse_array_push in H. inv_bind H. destruct x as [t0 s0]. first_tok Hm Hc.
+  inv_bind H. destruct x as [arr s2]. destruct (primary_sound _ _ _ _ Hm0) as (tp & A1 & Gp).
+  destruct (match_and_consume (is_one_of [TWith; TLike]) s2) as [[tw s3]|] eqn:E.
+  - destruct (mac_toks _ _ _ _ E) as (A2 & B2 & _). unfold is_one_of, ttype_in in B2.
+    destruct (tid tw) eqn:Etw; cbn in B2; try discriminate.
+    + inv_bind H. destruct x as [el s4]. destruct (poetic_literal_sound _ _ _ Hm1) as (tq & A3 & Gq & Hne). injection H as <- <-.
+      exists ([t] ++ tp ++ [tw] ++ tq). split; [rewrite A0, A1, A2, A3; norm_app; reflexivity|apply gs_rock_like; auto].
+    + inv_bind H. destruct x as [[first rest_] s4]. destruct (toplevel_list_sound _ _ _ _ _ Hm1) as (tf & tr & A3 & Gf & Gr).
+      injection H as <- <-.
+      exists ([t] ++ tp ++ [tw] ++ tf ++ tr). split; [rewrite A0, A1, A2, A3; norm_app; reflexivity|apply gs_rock_with; auto].
+  - injection H as <- <-. exists ([t] ++ tp). split; [rewrite A0, A1; norm_app; reflexivity|apply gs_rock; auto].
+Qed.
+
+Lemma pop_sound f s t st s1 : current s = Some t -> tid t = TRoll ->
+  parse_array_pop prof f s = Ok (st, s1) -> exists ts, ptoks s = ts ++ ptoks s1 /\ g_stmt ts st.
+Proof.
+  intros Hc Ht H. unfold parse_array_pop in H. inv_bind H. destruct x as [t0 s0]. first_tok Hm Hc.
+  inv_bind H. destruct x as [arr s2]. destruct (primary_sound _ _ _ _ Hm0) as (tp & A1 & Gp).
+  inv_bind H. destruct x as [dest s3]. destruct (opt_lhs_after_sound _ _ _ _ Hm1) as (tinto & A2 & Hinto). injection H as <- <-.
+  exists ([t] ++ tp ++ tinto). split; [rewrite A0, A1, A2; norm_app; reflexivity|apply gs_roll; auto].
+Qed.
+
+Lemma skip_opt_tok m s : exists l, ptoks s = l ++ ptoks (skip_opt m s) /\ g_opt_tok m l.
+Proof.
+  destruct (skip_opt_toks m s) as (l & A & Hl). exists l. split; auto.
+Qed.
+
+Lemma return_sound f s t st s1 : current s = Some t -> tid t = TReturn ->
+  parse_return prof f s = Ok (st, s1) -> exists ts, ptoks s = ts ++ ptoks s1 /\ g_stmt ts st.
+Proof.
+  intros Hc Ht H. unfold parse_return in H. inv_bind H. destruct x as [rt s0]. first_tok Hm Hc.
+  inv_bind H.
+  assert (Hb1 : exists l, ptoks s0 = l ++ ptoks (if x then skip_opt (is_id TBack) s0 else s0) /\ g_opt_tok (is_id TBack) l).
+  { destruct x; [apply skip_opt_tok|exists []; split; [reflexivity|left; reflexivity]]. }
+  destruct Hb1 as (tb1 & A1 & G1).
+  inv_bind H. destruct x0 as [e s3]. destruct (expr_sound _ _ _ _ Hm1) as (te & A2 & Ge). injection H as <- <-.
+  destruct (skip_opt_tok (is_id TBack) s3) as (tb2 & A3 & G2).
+  exists ([t] ++ tb1 ++ te ++ tb2). split; [rewrite A0, A1, A2, A3; norm_app; reflexivity|apply gs_return; auto].
+Qed.
+
+(** * Function parameters *)
+Definition param_parser : P (varname * range) :=
+  fun st => let* (v, r, st') := expect_variable_name prof st in Ok ((v, r), st').
+
+Lemma param_parser_sound s n r s1 : param_parser s = Ok ((n, r), s1) -> exists ts, ptoks s = ts ++ ptoks s1 /\ g_var ts n.
+Proof.
+  unfold param_parser. intro H. inv_bind H. destruct x as [[v r0] st']. injection H as <- <- <-.
+  eapply expect_variable_name_sound; eauto.
+Qed.
+
+Lemma argsep_of s sep s1 : match_and_consume (is_one_of param_seps) s = Some (sep, s1) ->
+  exists tsep, ptoks s = tsep ++ ptoks (match tid sep with TComma => skip_opt (is_id TAnd) s1 | _ => s1 end) /\ g_argsep tsep.
+Proof.
+  intro E. destruct (mac_toks _ _ _ _ E) as (A & B & _).
+  assert (Hdef : exists tsep, ptoks s = tsep ++ ptoks s1 /\ g_argsep tsep)
+    by (exists [sep]; split; [rewrite A; reflexivity|apply ga_sep; auto]).
+  destruct (tid sep) eqn:Et; try exact Hdef.
+  destruct (skip_opt_toks (is_id TAnd) s1) as (l & Hl & [->|(a & -> & Ha)]).
+  - exists [sep]. split; [rewrite A, Hl; reflexivity|apply ga_sep; auto].
+  - exists [sep; a]. split; [rewrite A, Hl; reflexivity|]. apply ga_comma_and; auto. apply (tid_of_is_id TAnd a Ha).
+Qed.
+
+Lemma param_tail_params : forall fuel s acc acc' s1,
+  param_tail param_parser fuel s acc = Ok (acc', s1) ->
+  forall ts0, g_params ts0 acc -> exists ts, ptoks s = ts ++ ptoks s1 /\ g_params (ts0 ++ ts) acc'.
+Proof.
+  induction fuel as [|f IH]; intros s acc acc' s1 H ts0 G0; cbn [param_tail] in H; [discriminate|].
+  destruct (match_and_consume (is_one_of param_seps) s) as [[sep s0]|] eqn:E.
+  - destruct (argsep_of _ _ _ E) as (tsep & A & Gs).
+    inv_bind H. destruct x as [[n r] s3]. destruct (param_parser_sound _ _ _ _ Hm) as (tn & A2 & Gn).
+    destruct (IH _ _ _ _ H (ts0 ++ tsep ++ tn)) as (ts & A3 & Gp); [apply gpar_snoc; auto|].
+    exists (tsep ++ tn ++ ts). split; [rewrite A, A2, A3; norm_app; reflexivity|]. rewrite <- ?app_assoc in Gp. exact Gp.
+  - injection H as <- <-. exists []. rewrite app_nil_r. auto.
+Qed.
+
+Lemma parameter_list_params fuel s ps s1 :
+  parse_parameter_list param_parser fuel s = Ok (ps, s1) -> exists ts, ptoks s = ts ++ ptoks s1 /\ g_params ts ps.
+Proof.
+  unfold parse_parameter_list. intro H. inv_bind H. destruct x as [[n r] s0].
+  destruct (param_parser_sound _ _ _ _ Hm) as (tn & A & Gn).
+  destruct (param_tail_params _ _ _ _ _ H tn (gpar_one tn n r Gn)) as (ts & A2 & Gp).
+  exists (tn ++ ts). split; [rewrite A, A2; norm_app; reflexivity|exact Gp].
+Qed.
+
+(** * Statements and blocks *)
+Section Blocks.
+Variable buf : str.
+
+Record BS (f : nat) : Prop := mkBS {
+  bs_stmt : forall s o s1, parse_statement prof buf f s = Ok (o, s1) ->
+      match o with
+      | Some st => exists ts, ptoks s = ts ++ ptoks s1 /\ g_stmt ts st
+      | None => s1 = s
+      end;
+  bs_word : forall s st s1, parse_statement_starting_with_word prof buf f s = Ok (st, s1) ->
+      exists ts, ptoks s = ts ++ ptoks s1 /\ g_stmt ts st;
+  bs_fun : forall n nr s t st s1, current s = Some t -> tid t = TTakes ->
+      parse_function prof buf f n nr s = Ok (st, s1) ->
+      exists ts, ptoks s = ts ++ ptoks s1 /\ forall tn, g_var tn n -> g_stmt (tn ++ ts) st;
+  bs_if : forall s t st s1, current s = Some t -> tid t = TIf -> parse_if prof buf f s = Ok (st, s1) ->
+      exists ts, ptoks s = ts ++ ptoks s1 /\ g_stmt ts st;
+  bs_loop : forall s t st s1, current s = Some t -> (tid t = TWhile \/ tid t = TUntil) -> parse_loop prof buf f s = Ok (st, s1) ->
+      exists ts, ptoks s = ts ++ ptoks s1 /\ g_stmt ts st;
+  bs_block : forall s b s1, parse_block prof buf f s = Ok (b, s1) -> exists ts, ptoks s = ts ++ ptoks s1 /\ g_block ts b;
+  bs_fblock : forall s b s1, parse_function_block prof buf f s = Ok (b, s1) -> exists ts, ptoks s = ts ++ ptoks s1 /\ g_block ts b;
+  bs_stmts : forall inf s acc ss s1, block_statements prof buf f inf s acc = Ok (ss, s1) ->
+      forall ts0, g_stmts ts0 acc -> exists ts, ptoks s = ts ++ ptoks s1 /\ g_stmts (ts0 ++ ts) ss
+}.
+
+Lemma BS_0 : BS 0.
+Proof. constructor; intros; discriminate. Qed.
+
+Lemma some_inv (r : pres (stmt * pstate)) o s1 :
+  (let* (x, s') := r in Ok (Some x, s')) = Ok (o, s1) -> exists st, o = Some st /\ r = Ok (st, s1).
+Proof. destruct r as [[x s']| | | | |]; cbn; try discriminate. intro H. injection H as <- <-. eauto. Qed.
+
+Lemma parse_statement_S f s :
+  parse_statement prof buf (S f) s =
+  (let some := fun r : pres (stmt * pstate) => let* (x, s') := r in Ok (Some x, s') in
+   match current s with
+   | None => Ok (None, s)
+   | Some t =>
+       match tid t with
+       | TPut => some (parse_put_assignment prof f s)
+       | TLet => some (parse_let_assignment prof f s)
+       | TWord | TCommonVariablePrefix | TPronoun => some (parse_statement_starting_with_word prof buf f s)
+       | TIf => some (parse_if prof buf f s)
+       | TWhile | TUntil => some (parse_loop prof buf f s)
+       | TElse => Ok (None, s)
+       | TNewline => Ok (None, s)
+       | TBuild => let* (i, r, k, s1) := parse_build_knock prof TBuild TUp s in Ok (Some (SInc i r k), s1)
+       | TKnock => let* (i, r, k, s1) := parse_build_knock prof TKnock TDown s in Ok (Some (SDec i r k), s1)
+       | TSay | TSayAlias => some (parse_say prof f s)
+       | TListen => some (parse_listen prof f s)
+       | TCut | TJoin | TCast => some (parse_mutation prof f s)
+       | TTurn => some (parse_rounding prof f s)
+       | TBreak => some (parse_break prof s)
+       | TContinue => some (parse_simple_continue prof s)
+       | TTake => some (parse_take_it_to_the_top prof s)
+       | TRock => some (parse_array_push prof f s)
+       | TRoll => some (parse_array_pop prof f s)
+       | TReturn => some (parse_return prof f s)
+       | _ => fail s PUnexpectedToken
+       end
+   end).
+Proof. reflexivity. Qed.
+
+Lemma BS_S f : BS f -> BS (S f).
+Proof.
+  intros [Hst Hw Hfn Hif Hlp Hb Hfb Hss]. constructor.
+  - (* parse_statement *)
+    intros s o s1 H. rewrite parse_statement_S in H. cbv zeta in H.
+    destruct (current s) as [t|] eqn:Ec; [|injection H as <- <-; reflexivity].
+    destruct (tid t) eqn:Et; try discriminate; try (injection H as <- <-; reflexivity);
+      try (apply some_inv in H; destruct H as (st & -> & H);
+           first [ solve [eapply put_sound; eauto] | solve [eapply let_sound; eauto] | solve [eapply Hw; eauto]
+                 | solve [eapply Hif; eauto] | solve [eapply Hlp; eauto]
+                 | solve [eapply say_sound; eauto; unfold is_one_of, ttype_in; rewrite Et; reflexivity]
+                 | solve [eapply listen_sound; eauto]
+                 | solve [eapply mutation_sound; eauto; unfold is_one_of, ttype_in; rewrite Et; reflexivity]
+                 | solve [eapply rounding_sound; eauto] | solve [eapply break_sound; eauto] | solve [eapply continue_sound; eauto]
+                 | solve [eapply take_sound; eauto] | solve [eapply push_sound; eauto] | solve [eapply pop_sound; eauto]
+                 | solve [eapply return_sound; eauto] ]).
+    + inv_bind H. destruct x as [[[i r] k] s0]. injection H as <- <-.
+      destruct (build_knock_sound TBuild TUp s t i r k s0 Ec Et (or_introl eq_refl) Hm) as (ti & tu & more & A & Gi & Htu & F & ->).
+      eexists. split; [exact A|]. apply gs_build; auto.
+    + inv_bind H. destruct x as [[[i r] k] s0]. injection H as <- <-.
+      destruct (build_knock_sound TKnock TDown s t i r k s0 Ec Et (or_intror eq_refl) Hm) as (ti & tu & more & A & Gi & Htu & F & ->).
+      eexists. split; [exact A|]. apply gs_knock; auto.
+  - (* starting with a word *)
+    intros s st s1 H. cbn [parse_statement_starting_with_word] in H.
+    inv_bind H. destruct x as [[i r] s0]. destruct (expect_identifier_sound _ _ _ _ Hm) as (ti & A & Gi).
+    assert (Hpo : parse_poetic_assignment prof buf f i r s0 = Ok (st, s1) -> exists ts, ptoks s = ts ++ ptoks s1 /\ g_stmt ts st).
+    { intro H'. destruct (poetic_assignment_sound _ _ _ _ _ _ _ H') as (ts & A2 & K).
+      exists (ti ++ ts). split; [rewrite A, A2; norm_app; reflexivity|auto]. }
+    destruct (current s0) as [t|] eqn:Ec; [|auto].
+    destruct (tid t) eqn:Et; auto.
+    + inv_bind H. destruct x as [n nr]. unfold as_variable_name in Hm0. destruct i as [n0|]; [|discriminate].
+      injection Hm0 as <- <-. inversion Gi as [ts' n' Gn|]; subst.
+      destruct (Hfn n0 r s0 t st s1 Ec Et H) as (ts & A2 & K).
+      exists (ti ++ ts). split; [rewrite A, A2; norm_app; reflexivity|auto].
+    + inv_bind H. destruct x as [n nr]. unfold as_variable_name in Hm0. destruct i as [n0|]; [|discriminate].
+      injection Hm0 as <- <-. inversion Gi as [ts' n' Gn|]; subst.
+      inv_bind H. destruct x as [args s2]. injection H as <- <-.
+      destruct (s_args f (ES_all f) _ _ _ Hm0) as (ta & A2 & t' & targs & -> & Gargs).
+      destruct (current_head _ _ Ec) as [r' Hr]. rewrite Hr in A2. cbn [app] in A2. injection A2 as <- ->.
+      exists (ti ++ [t] ++ targs). split; [rewrite A, Hr; norm_app; reflexivity|apply gs_call; auto].
+  - (* function *)
+    intros n nr s t st s1 Hc Ht H. cbn [parse_function] in H.
+    inv_bind H. destruct x as [t0 s0]. first_tok Hm Hc.
+    inv_bind H. destruct x as [params s2].
+    destruct (parameter_list_params _ _ _ _ Hm0) as (tps & A1 & Gps).
+    inv_bind H. destruct x as [u s3]. destruct (expect_eol_sound _ _ _ Hm1) as (teol & A2 & Ge).
+    inv_bind H. destruct x as [body s4]. destruct (Hfb _ _ _ Hm2) as (tb & A3 & Gb). injection H as <- <-.
+    exists ([t] ++ tps ++ teol ++ tb). split; [rewrite A0, A1, A2, A3; norm_app; reflexivity|].
+    intros tn Gn. apply gs_function; auto.
+  - (* if *)
+    intros s t st s1 Hc Ht H. cbn [parse_if] in H.
+    inv_bind H. destruct x as [t0 s0]. first_tok Hm Hc.
+    inv_bind H. destruct x as [c s2]. destruct (expr_sound _ _ _ _ Hm0) as (tc & A1 & Gc).
+    inv_bind H. destruct x as [u s3]. destruct (expect_eol_sound _ _ _ Hm1) as (teol & A2 & Ge).
+    inv_bind H. destruct x as [th s4]. destruct (Hb _ _ _ Hm2) as (tth & A3 & Gth).
+    destruct (match_and_consume (is_id TElse) s4) as [[x s5]|] eqn:E.
+    + destruct (mac_toks _ _ _ _ E) as (A4 & B4 & _).
+      inv_bind H. destruct x0 as [o s6].
+      assert (Hnl : exists tnl, ptoks s5 = tnl ++ ptoks s6 /\ g_opt_tok (is_id TNewline) tnl).
+      { unfold expect_token_or_end in Hm3. destruct (current s5) as [c5|] eqn:Ec5.
+        - destruct (ttype_eqb (tid c5) TNewline) eqn:Et5; [|discriminate].
+          destruct (advance s5) as [[t' s']|] eqn:Ea.
+          + injection Hm3 as _ <-. destruct (advance_toks _ _ _ Ea) as [A5 _].
+            destruct (current_head _ _ Ec5) as [r5 Hr5]. rewrite Hr5 in A5. injection A5 as <- ->.
+            exists [c5]. split; [rewrite Hr5; reflexivity|]. right. exists c5. split; auto.
+            unfold is_id. destruct (tid c5); cbn in Et5; try discriminate; reflexivity.
+          + injection Hm3 as _ <-. exists []. split; auto. left. reflexivity.
+        - injection Hm3 as _ <-. exists []. split; auto. left. reflexivity. }
+      destruct Hnl as (tnl & A5 & Gnl).
+      inv_bind H. destruct x0 as [el s7]. destruct (Hb _ _ _ Hm4) as (tel & A6 & Gel). injection H as <- <-.
+      exists ([t] ++ tc ++ teol ++ tth ++ ([x] ++ tnl ++ tel)). split; [rewrite A0, A1, A2, A3, A4, A5, A6; norm_app; reflexivity|].
+      apply gs_if; auto. right. exists x, tnl, tel, el. repeat split; auto. apply (tid_of_is_id TElse x B4).
+    + injection H as <- <-.
+      exists ([t] ++ tc ++ teol ++ tth ++ []). split; [rewrite A0, A1, A2, A3; norm_app; rewrite ?app_nil_r; reflexivity|].
+      apply gs_if; auto.
+  - (* loop *)
+    intros s t st s1 Hc Ht H. cbn [parse_loop] in H.
+    inv_bind H. destruct x as [t0 s0]. first_tok Hm Hc.
+    inv_bind H. destruct x as [c s2]. destruct (expr_sound _ _ _ _ Hm0) as (tc & A1 & Gc).
+    inv_bind H. destruct x as [u s3]. destruct (expect_eol_sound _ _ _ Hm1) as (teol & A2 & Ge).
+    inv_bind H. destruct x as [b s4]. destruct (Hb _ _ _ Hm2) as (tb & A3 & Gb).
+    destruct Ht as [Ht|Ht]; rewrite Ht in H; injection H as <- <-;
+      (exists ([t] ++ tc ++ teol ++ tb); split; [rewrite A0, A1, A2, A3; norm_app; reflexivity|]);
+      [apply gs_while|apply gs_until]; auto.
+  - (* block *)
+    intros s b s1 H. cbn [parse_block] in H.
+    destruct (match_and_consume (is_id TNewline) s) as [[t s0]|] eqn:E.
+    + destruct (mac_toks _ _ _ _ E) as (A & B & _). injection H as <- <-.
+      exists [t]. split; [rewrite A; reflexivity|]. apply gb_blank. apply (tid_of_is_id TNewline t B).
+    + inv_bind H. destruct x as [ss s0]. injection H as <- <-.
+      destruct (Hss _ _ _ _ _ Hm [] gss_nil) as (ts & A & G). exists ts. split; auto. apply gb_stmts. exact G.
+  - intros s b s1 H. cbn [parse_function_block] in H.
+    destruct (match_and_consume (is_id TNewline) s) as [[t s0]|] eqn:E.
+    + destruct (mac_toks _ _ _ _ E) as (A & B & _). injection H as <- <-.
+      exists [t]. split; [rewrite A; reflexivity|]. apply gb_blank. apply (tid_of_is_id TNewline t B).
+    + inv_bind H. destruct x as [ss s0]. injection H as <- <-.
+      destruct (Hss _ _ _ _ _ Hm [] gss_nil) as (ts & A & G). exists ts. split; auto. apply gb_stmts. exact G.
+  - (* statement loop *)
+    intros inf s acc ss s1 H ts0 G0. cbn [block_statements] in H.
+    inv_bind H. destruct x as [o s0]. pose proof (Hst _ _ _ Hm) as Ho.
+    destruct o as [st|].
+    + destruct Ho as (tst & A & Gst).
+      destruct (inf && is_function_terminator st).
+      * injection H as <- <-. exists tst. split; auto.
+        replace (ts0 ++ tst) with (ts0 ++ tst ++ []) by (rewrite app_nil_r; reflexivity). apply gss_snoc; auto. constructor.
+      * inv_bind H. destruct x as [u s2]. destruct (expect_eol_sound _ _ _ Hm0) as (teol & A2 & Ge).
+        destruct (Hss _ _ _ _ _ H (ts0 ++ tst ++ teol)) as (ts & A3 & G3); [apply gss_snoc; auto|].
+        exists (tst ++ teol ++ ts). split; [rewrite A, A2, A3; norm_app; reflexivity|]. rewrite <- ?app_assoc in G3. exact G3.
+    + subst s0. injection H as <- <-. exists []. rewrite app_nil_r. auto.
+Qed.
+
+Theorem BS_all f : BS f.
+Proof. induction f; [apply BS_0|apply BS_S; auto]. Qed.
+
+(** ** C02: every program the parser returns is the grammar's tree for all the tokens it consumed *)
+Theorem parse_blocks_sound : forall fuel s acc p,
+  parse_blocks prof buf fuel s acc = Ok p ->
+  forall ts0, g_program ts0 acc -> g_program (ts0 ++ ptoks s) p.
+Proof.
+  induction fuel as [|f IH]; intros s acc p H ts0 G0; cbn [parse_blocks] in H; [discriminate|].
+  destruct (current s) as [t|] eqn:Ec.
+  - inv_bind H. destruct x as [b s1]. destruct (bs_block (S f) (BS_all (S f)) _ _ _ Hm) as (tb & A & Gb).
+    destruct (current_matches (is_id TElse) s1); [discriminate|].
+    specialize (IH _ _ _ H (ts0 ++ tb) (gprog_snoc ts0 acc tb b G0 Gb)).
+    rewrite A. rewrite app_assoc. exact IH.
+  - injection H as <-. unfold current in Ec. unfold ptoks. destruct (toks s); [|discriminate]. cbn. rewrite app_nil_r. exact G0.
+Qed.
+End Blocks.
 End Sound.
+
+(** the whole front end: an accepted source is a program of the grammar over its comment-free tokens *)
+Theorem parse_sound prof src p :
+  parse prof src = ParseOk p ->
+  exists pts, lex prof src = Ok pts /\ g_program (map pt_tok (drop_comments pts)) p.
+Proof.
+  unfold parse. destruct (lex prof src) as [pts| | | | |]; try discriminate.
+  intro H. exists pts. split; auto.
+  destruct (parse_blocks prof src (parse_fuel (length (drop_comments pts))) (mkPS (drop_comments pts) 1 (mkLoc 1 0) false) []) as [p'| | | | |] eqn:E;
+    try discriminate.
+  injection H as <-. apply (parse_blocks_sound prof src _ _ _ _ E [] gprog_nil).
+Qed.
